@@ -4,7 +4,7 @@ from props._passes import mk_pass  # noqa
 
 PROPERTY = "C02"
 LEVEL = "translation_validation"
-JOB_TIMEOUT = {"quick": 240, "thorough": 1200}
+JOB_TIMEOUT = {"quick": 400, "thorough": 1500}
 BOUNDS = {"quick": {"programs": "corpus/cprogs.py (C functions through the real front end, x86_64 type sizes)",
                     "configs": "each of 9 passes alone, optimize level 2, one 4-pass sequence; constants symbolic for value-dependent passes",
                     "symbolic": "all argument values (full type range), initial contents of globals (<=32 bytes) and 16 bytes behind each pointer argument, 4 external call results",
